@@ -453,6 +453,9 @@ func c05(c *Ctx) {
 	c05Snapshots(c)
 	c05PooledBuffers(c)
 	c05SerialisedUnmodified(c)
+	// the file channel's serialised lines reach the rotating file in whole-line batches (shared with C07): a batch that
+	// ends inside a line lets a rotation put the two halves of one event's JSON into two files
+	c07WholeLineBatches(c)
 }
 
 // reviewed dynamic origins: (enclosing function substring, origin description substring) -> reason
